@@ -157,7 +157,7 @@ unchanged tree.
 Sizes: {lean_total/1000:.1f} k lines of Lean (Model {sizes['Model']/1000:.1f} k, Spec {sizes['Spec']/1000:.1f} k, Gen {sizes['Gen']/1000:.1f} k regenerated,
 Prim {sizes['Prim']/1000:.1f} k, Proofs {sizes['Proofs']/1000:.1f} k, Props {sizes['Props']/1000:.1f} k), {lines_of('gogen/*.go')/1000:.1f} k lines of translator (Go),
 {lines_of('harness/*.go')/1000:.1f} k lines of harness (Go), {(lines_of('lib/*.py'))/1000:.1f} k lines of runner (python3). A clean `lake build` takes
-about three and a half minutes on 16 cores (the DES table facts dominate); on an unchanged tree every quick check
+about four and a half minutes on 16 cores (413 modules; the DES table facts and the IR equality proofs dominate); on an unchanged tree every quick check
 takes between 1 s and 40 s.
 
 ### 0.1a Which code is regenerated, and which is a hand-written model
